@@ -1929,6 +1929,10 @@ class Path:
                 return mk_bool(z3.Length(v.t) > 0)
             if isinstance(v.k, tuple) and v.k[0] == 'opq':
                 return True
+            from .values import ext_kind
+
+            if ext_kind(v.k) is not None:
+                return ext_kind(v.k).truth(self, v)
         if isinstance(v, Unknown):
             return v
         if isinstance(v, OpaqueStr):
